@@ -3,6 +3,7 @@ package main
 import (
 	"encoding/json"
 	"os"
+	"strings"
 
 	"github.com/modernizing/coca/pkg/application/api"
 	"github.com/modernizing/coca/pkg/domain/api_domain"
@@ -45,7 +46,18 @@ func apiFamily(c map[string]json.RawMessage) (interface{}, error) {
 			out = append(out, map[string]string{"Uri": a.Uri, "HttpMethod": a.HttpMethod, "MethodName": a.MethodName,
 				"RequestBodyClass": a.RequestBodyClass, "PackageName": a.PackageName, "ClassName": a.ClassName})
 		}
-		return map[string]interface{}{"apis": out}, nil
+		res := map[string]interface{}{"apis": out}
+		// the report the command derives from that list: one row per handler in coca_reporter/api.csv (Size,Method,URI,Caller)
+		if b, err := getReport(work, "api.csv"); err == nil {
+			rows := []string{}
+			for i, line := range strings.Split(strings.TrimRight(string(b), "\n"), "\n") {
+				if i > 0 && strings.TrimSpace(line) != "" {
+					rows = append(rows, strings.TrimSpace(line))
+				}
+			}
+			res["csvRows"] = rows
+		}
+		return res, nil
 	}
 	app := new(api.JavaApiApp)
 	apis := app.AnalysisPath(dir, nil, map[string]core_domain.CodeDataStruct{}, map[string]string{})
